@@ -281,7 +281,49 @@ func runTemporal(c *lib.Ctx, cs caseT, fail func(int, string, string)) {
 	}
 	typ, kind, p := temporalType(cs.Target)
 	c.Count("target:" + kind)
-	id := c.CaseNoModel(cs, "temporal|"+cs.Target+"|"+cs.Text)
+	// the Coq model is compared on Convert's answer (DATE/DATETIME/TIMESTAMP text, colon-form TIME text, digit YEAR text)
+	cvm, flagm, cerrm := typ.Convert(context.Background(), cs.Text)
+	term := ""
+	okm := cerrm == nil && flagm == sql.InRange
+	switch kind {
+	case "datetime", "timestamp", "date":
+		out := "DErr"
+		if okm {
+			if t, isT := cvm.(time.Time); isT {
+				out = "(DOk " + lib.CoqZ(civilOfTime(t).micros()) + ")"
+			}
+		}
+		k := map[string]string{"datetime": "KDatetime", "timestamp": "KTimestamp", "date": "KDate"}[kind]
+		term = fmt.Sprintf("(DtCase %s %d%%Z %s %s)", k, p, zbytes(cs.Text), out)
+	case "time":
+		if strings.Contains(cs.Text, ":") {
+			out := "TmErr"
+			if okm {
+				if ts, isT := cvm.(types.Timespan); isT {
+					out = "(TmOk " + lib.CoqZ(ts.AsMicroseconds()) + ")"
+				}
+			}
+			term = fmt.Sprintf("(TimeCase %s %s)", zbytes(cs.Text), out)
+		}
+	case "year":
+		digits := cs.Text != ""
+		for i := 0; i < len(cs.Text); i++ {
+			digits = digits && cs.Text[i] >= '0' && cs.Text[i] <= '9'
+		}
+		if digits {
+			out := "YErr"
+			if okm {
+				out = "(YOk " + lib.CoqZStr(fmt.Sprint(cvm)) + ")"
+			}
+			term = fmt.Sprintf("(YearCase %s %s)", zbytes(cs.Text), out)
+		}
+	}
+	var id int
+	if term != "" {
+		id = c.Case(term, cs, "temporal|"+cs.Target+"|"+cs.Text)
+	} else {
+		id = c.CaseNoModel(cs, "temporal|"+cs.Target+"|"+cs.Text)
+	}
 	c.PredChecked()
 	// is the text well-formed (own strict grammar)?
 	var want civil
